@@ -82,3 +82,77 @@ def make(name):
 
 for _n in SPECS:
     make(_n)
+
+
+# ------------------------------------------------------------------------------------------------ the filter loops
+from contracts import lib_base
+from pyvc import builtins as bi
+from pyvc.interp import Instance
+
+
+@vc('C13.iterfieldselect', functions=[SEL + 'iterfieldselect'], props=['C13', 'C03', 'C20'],
+    assumptions=['contract of asindices (contracts/lib_base.py), discharged by C12.asindices.range',
+                 '`where` is a deterministic callback that may raise',
+                 'stateless-body rule (engine meta-theorem): out = header ++ concat over data rows of the per-row delta, '
+                 'so select and its complement partition the data rows in input order'])
+def iterfieldselect(h):
+    for nfields in ('one', 'many'):
+        def body(ctx, nfields=nfields):
+            def delta(ls, x, dout):
+                row = view_seq(x)
+                indices, missing, complement = ls['indices'], ls['missing'], ls['complement']
+                i0 = smt.ival(z3.Select(indices.arr, 0))
+                if nfields == 'one':
+                    v = z3.If(i0 < row.len, z3.Select(row.arr, i0), as_v(missing))
+                    r, raises, exc = bi.ucall_terms('where', [v])
+                    keep = smt.truthy(r) != _t(complement)
+                    ctx.oblige('iterfieldselect: the row is kept iff bool(where(cell)) != complement, a missing cell read as `missing`; kept rows are unchanged',
+                               z3.If(keep, z3.And(dout.len == 1, _t(row_eq(out_row(dout, 0), row))), dout.len == 0))
+                else:
+                    ctx.oblige('iterfieldselect(compound field): a row yields itself unchanged or nothing',
+                               z3.Or(dout.len == 0, z3.And(dout.len == 1, _t(row_eq(out_row(dout, 0), row)))))
+            it = h.interp(ctx, loops={(SEL + 'iterfieldselect', 0): LoopSpec(delta=delta, label='data rows')}, summaries=lib_base.SUMMARIES)
+            S = sym_table(ctx, 'S', nmin=1)
+            field = sym_seq(ctx, 'field', 'tuple')
+            if nfields == 'one':
+                ctx.assume(field.len == 1)
+            else:
+                ctx.assume(field.len >= 2)
+            missing, complement = sym_cell('missing'), sym_bool('complement')
+            fn = closure_of(it, SEL + 'iterfieldselect')
+            res = run_generator(it, fn, [S, field, UCall('where'), complement, missing])
+            if res.exc is not None:
+                inloop = getattr(ctx, 'in_iteration', None)
+                ok = (inloop is None and res.exc.kind == 'FieldSelectionError') or (inloop is not None and res.exc.kind == 'UserError')
+                ctx.oblige('iterfieldselect: only FieldSelectionError (before the data) or the exception of `where` (at its row, nothing emitted for it) escapes',
+                           z3.And(z3.BoolVal(ok), res.out.len == (0 if inloop is not None else res.out.len)))
+                return
+            pre = ctx.pre_loop_out
+            ctx.oblige('iterfieldselect: the header is passed through first, once; nothing after the last row',
+                       z3.And(pre.len == 1, _t(row_eq(out_row(pre, 0), src_row(S, 0))), res.out.len == 0))
+        h.explore(body)
+
+
+@vc('C13.iterrowselect', functions=[SEL + 'iterrowselect', 'petl.util.base.Record.__init__'], props=['C13', 'C03', 'C20'],
+    assumptions=['`where` is a deterministic callback on the record that may raise', 'stateless-body rule (engine meta-theorem)'])
+def iterrowselect(h):
+    def body(ctx):
+        def delta(ls, x, dout):
+            rowv = x.attrs['_tuple']
+            r, raises, exc = bi.ucall_terms('where', [as_v(rowv)])
+            keep = smt.truthy(r) != _t(ls['complement'])
+            ctx.oblige('iterrowselect: the row is kept iff bool(where(record)) != complement; kept rows are unchanged',
+                       z3.If(keep, z3.And(dout.len == 1, _t(row_eq(out_row(dout, 0), rowv))), dout.len == 0))
+        it = h.interp(ctx, loops={(SEL + 'iterrowselect', 0): LoopSpec(delta=delta, label='data rows')})
+        S = sym_table(ctx, 'S', nmin=1)
+        fn = closure_of(it, SEL + 'iterrowselect')
+        res = run_generator(it, fn, [S, UCall('where'), sym_cell('missing'), sym_bool('complement')])
+        if res.exc is not None:
+            inloop = getattr(ctx, 'in_iteration', None)
+            ctx.oblige('iterrowselect: only the exception of `where` escapes, at its row, nothing emitted for it',
+                       z3.And(z3.BoolVal(inloop is not None and res.exc.kind == 'UserError'), res.out.len == 0))
+            return
+        pre = ctx.pre_loop_out
+        ctx.oblige('iterrowselect: the header is passed through first, once; nothing after the last row',
+                   z3.And(pre.len == 1, _t(row_eq(out_row(pre, 0), src_row(S, 0))), res.out.len == 0))
+    h.explore(body)
